@@ -431,6 +431,8 @@ def _pass_copy_prop(fn) -> bool:
             ok = not bad
         elif pure and has_call:
             ok = all(in_next_stmt_head(u) for u in own)
+        elif __import__("re").match(r"^(it|t)__h\d+$", nm):
+            ok = False  # a temporary introduced by hoisting a helper call: it is consumed by the helper inliner, not re-inlined
         else:
             # N3: an argument temporary.  Results of state-changing container/future operations keep their name
             # (the rules identify "the element just popped" by that name)
@@ -495,6 +497,11 @@ def normalize_tree(tree: ast.Module, table: Optional[Dict[str, List[str]]] = Non
                 for _ in range(60):
                     ch = _pass_inline_setters(st, cls)
                     ch = ch or _pass_inline_helpers(st, ctx)
+                    ch = ch or _pass_expr_control(st)
+                    ch = ch or _pass_walrus(st)
+                    ch = ch or _pass_tuple_assign(st)
+                    ch = ch or _pass_hoist_for_iter(st, ctx)
+                    ch = ch or _pass_filtered_for(st)
                     ch = ch or _pass_eta_expand(st)
                     ch = ch or _pass_len_truth(st)
                     ch = ch or (_pass_ifexp_assign(st) if _wants_ifexp_split(st) else False)
@@ -1457,4 +1464,156 @@ def _wants_ifexp_split(fn) -> bool:
     for st in _own_nodes(fn):
         if isinstance(st, ast.Assign) and isinstance(st.value, ast.IfExp) and isinstance(st.value.body, ast.Attribute) and isinstance(st.value.orelse, ast.Attribute):
             return True
+    return False
+
+
+# ---------------------------------------------------------------------------
+# N16: expression statements that are control flow (`A if c else B`, `c and f()`, `c or f()`) -> if statements
+# N17: walrus in the leading position of an if-test -> assignment before the if; walrus of a path in a while-test ->
+#      assignment before the loop (the path is not re-bound inside the loop)
+# N18: `a, b = X, Y` -> `a = X; b = Y` when no later value mentions an earlier target
+# N19: a helper call used as the iterable of a for loop is bound to a temporary first (evaluated once)
+
+
+def _pass_expr_control(fn) -> bool:
+    idx = _Index(fn)
+    for st in list(idx.stmts):
+        if isinstance(st, ast.Return) and isinstance(st.value, ast.IfExp):
+            # N21: `return A if c else B` -> `if c: return A  else: return B`
+            b, i = idx.block_and_index(st)
+            if b is None:
+                continue
+            v = st.value
+            b[i:i + 1] = _loc([ast.If(test=v.test, body=[ast.Return(value=v.body)], orelse=[ast.Return(value=v.orelse)])], st)
+            return True
+        if not isinstance(st, ast.Expr):
+            continue
+        v = st.value
+        new = None
+        if isinstance(v, ast.IfExp):
+            def arm(e):
+                return [ast.Pass()] if isinstance(e, ast.Constant) else [ast.Expr(value=e)]
+            new = ast.If(test=v.test, body=arm(v.body), orelse=[] if isinstance(v.orelse, ast.Constant) else arm(v.orelse))
+        elif isinstance(v, ast.BoolOp) and len(v.values) == 2:
+            a, b_ = v.values
+            if isinstance(v.op, ast.And):
+                new = ast.If(test=a, body=[ast.Expr(value=b_)], orelse=[])
+            else:
+                new = ast.If(test=ast.UnaryOp(op=ast.Not(), operand=a), body=[ast.Expr(value=b_)], orelse=[])
+        if new is None:
+            continue
+        b, i = idx.block_and_index(st)
+        if b is None:
+            continue
+        b[i:i + 1] = _loc([new], st)
+        return True
+    return False
+
+
+def _leading_atom(test):
+    """The sub-expression of ``test`` that is evaluated first, unconditionally."""
+    e = test
+    while True:
+        if isinstance(e, ast.BoolOp):
+            e = e.values[0]
+        elif isinstance(e, ast.UnaryOp) and isinstance(e.op, ast.Not):
+            e = e.operand
+        elif isinstance(e, ast.Compare):
+            e = e.left
+        else:
+            return e
+
+
+def _pass_walrus(fn) -> bool:
+    idx = _Index(fn)
+    for st in list(idx.stmts):
+        if isinstance(st, ast.If):
+            a = _leading_atom(st.test)
+            if isinstance(a, ast.NamedExpr) and isinstance(a.target, ast.Name):
+                b, i = idx.block_and_index(st)
+                if b is None:
+                    continue
+                # an `elif` is the sole statement of an orelse list: hoisting there stays inside that branch
+                assign = ast.Assign(targets=[ast.Name(id=a.target.id, ctx=ast.Store())], value=a.value)
+                _swap_node(st, a, ast.Name(id=a.target.id, ctx=ast.Load()))
+                b[i:i] = _loc([assign], st)
+                return True
+        elif isinstance(st, ast.While):
+            a = _leading_atom(st.test)
+            if isinstance(a, ast.NamedExpr) and isinstance(a.target, ast.Name) and _path_text(a.value) is not None:
+                free = _free_paths(a.value) | {a.target.id}
+                rebinds = any(isinstance(m, (ast.stmt, ast.ExceptHandler)) and _conflicts(_stored_paths(m), free) for m in _own_nodes_of_stmt(st))
+                b, i = idx.block_and_index(st)
+                if b is None or rebinds:
+                    continue
+                assign = ast.Assign(targets=[ast.Name(id=a.target.id, ctx=ast.Store())], value=a.value)
+                _swap_node(st, a, ast.Name(id=a.target.id, ctx=ast.Load()))
+                b[i:i] = _loc([assign], st)
+                return True
+    return False
+
+
+def _pass_tuple_assign(fn) -> bool:
+    idx = _Index(fn)
+    for st in list(idx.stmts):
+        if isinstance(st, ast.Assign) and len(st.targets) == 1 and isinstance(st.targets[0], ast.Tuple) and isinstance(st.value, ast.Tuple) \
+                and len(st.targets[0].elts) == len(st.value.elts) and not any(isinstance(e, ast.Starred) for e in st.targets[0].elts + st.value.elts):
+            tgs = [_path_text(t) for t in st.targets[0].elts]
+            if any(t is None for t in tgs):
+                continue
+            ok = True
+            for j in range(1, len(tgs)):
+                fp = _free_paths(st.value.elts[j])
+                if _conflicts(set(tgs[:j]), fp):
+                    ok = False
+            if not ok:
+                continue
+            b, i = idx.block_and_index(st)
+            if b is None:
+                continue
+            new = [ast.Assign(targets=[t], value=v) for t, v in zip(st.targets[0].elts, st.value.elts)]
+            b[i:i + 1] = _loc(new, st)
+            return True
+    return False
+
+
+def _pass_hoist_for_iter(fn, ctx) -> bool:
+    idx = _Index(fn)
+    for st in list(idx.stmts):
+        if isinstance(st, (ast.For,)) and isinstance(st.iter, ast.Call):
+            callee, _ds = ctx.resolve(st.iter.func, fn)
+            if callee is None or isinstance(callee, ast.AsyncFunctionDef):
+                continue
+            b, i = idx.block_and_index(st)
+            if b is None:
+                continue
+            tmp = _fresh("it")
+            assign = ast.Assign(targets=[ast.Name(id=tmp, ctx=ast.Store())], value=st.iter)
+            st.iter = ast.copy_location(ast.Name(id=tmp, ctx=ast.Load()), st.iter)
+            b[i:i] = _loc([assign], st)
+            return True
+    return False
+
+
+def _pass_filtered_for(fn) -> bool:
+    """N20: `for x in [y for y in P if c(y)]: BODY` -> `for x in P: if c(x): BODY` (single generator, the element is the
+    comprehension variable itself, conditions are pure; BODY has no break/continue/else).  The filter is then a guard the
+    facts engine sees.  Assumption: BODY does not change the truth of c() for later elements."""
+    idx = _Index(fn)
+    for st in list(idx.stmts):
+        if not (isinstance(st, ast.For) and isinstance(st.iter, (ast.ListComp, ast.GeneratorExp)) and isinstance(st.target, ast.Name) and not st.orelse):
+            continue
+        comp = st.iter
+        if len(comp.generators) != 1:
+            continue
+        g = comp.generators[0]
+        if not (isinstance(g.target, ast.Name) and isinstance(comp.elt, ast.Name) and comp.elt.id == g.target.id and g.ifs and not g.is_async):
+            continue
+        if not all(_is_pure(c)[0] for c in g.ifs) or _has_loop_jump(st.body):
+            continue
+        ren = _Subst({g.target.id: ast.Name(id=st.target.id, ctx=ast.Load())}, {})
+        test = ren.visit(copy.deepcopy(g.ifs[0])) if len(g.ifs) == 1 else ast.BoolOp(op=ast.And(), values=[ren.visit(copy.deepcopy(c)) for c in g.ifs])
+        st.iter = g.iter
+        st.body = _loc([ast.If(test=test, body=st.body, orelse=[])], st)
+        return True
     return False
